@@ -240,7 +240,8 @@ class P1Model:
         out = []
         for pp in self.paths:
             for alt in alts:
-                if all(pp.lits.get(a, v) == v for a, v in alt.items()):
+                # 'As' (line.isascii()) is an optional refinement of the ident test: an alternative that needs it false only applies to paths that test it
+                if all((pp.lits.get(a, v) == v) and not (a == "As" and v is False and a not in pp.lits) for a, v in alt.items()):
                     out.append(pp)
                     break
         return out
